@@ -57,6 +57,14 @@ Theorem C20_gate_refuses_get_project_legacy : forall root cwd path v,
 Proof. exact gate_get_project_legacy. Qed.
 Print Assumptions C20_gate_refuses_get_project_legacy.
 
+(* get_project(search=False) on a legacy project (fix 7826961): IncompatibleSchemaVersion too *)
+Theorem C20_gate_refuses_get_project_nosearch_legacy : forall root cwd path v,
+  os_exists root cwd path = true -> cfg_at root cwd path = false ->
+  get_version root cwd path SCHEMA = Some v -> v <> SCHEMA ->
+  get_project root cwd path false = (Err EIncompatibleSchemaVersion, root).
+Proof. exact gate_get_project_nosearch_legacy. Qed.
+Print Assumptions C20_gate_refuses_get_project_nosearch_legacy.
+
 Theorem C20_gate_refuses_init_project_legacy : forall root cwd path v,
   cfg_at root cwd path = false -> get_version root cwd path SCHEMA = Some v -> v <> SCHEMA ->
   init_project root cwd path = (Err EIncompatibleSchemaVersion, root).
